@@ -1,4 +1,5 @@
 import Driver.GraphDrv
+import Driver.BuildDrv
 
 open Driver
 
@@ -21,6 +22,7 @@ partial def processCases (lines : List String) (out : IO.FS.Stream) : IO Unit :=
       out.putStrLn s!"case {kind} {id}"
       let res := match kind with
         | "graph" => runGraphCase body
+        | "build" => runBuildCase body
         | _ => ["bad-kind"]
       for r in res do out.putStrLn r
       out.putStrLn "end"
